@@ -196,9 +196,7 @@ def sym_exit(inp, part):
             exc = e
         except Exception as e:  # noqa: BLE001
             exc = e
-        # let anything that is merely finishing finish
-        for _ in range(3):
-            await asyncio.sleep(0)
+        # no grace period: "leaves no background task running" is checked at the moment the context has ended
         left = [t for t in asyncio.all_tasks() if t is not me and not t.done()]
         state.update(exc=exc, entered=entered, left=len(left), left_names=[repr(t.get_coro())[:80] for t in left])
         for t in left:
